@@ -5,6 +5,7 @@ import (
 	"errors"
 	"fmt"
 	"os"
+	"path/filepath"
 	"strings"
 
 	"github.com/vektra/mockery/v3/config"
@@ -127,14 +128,26 @@ func NewInterfaceCollection(
 }
 
 // absClean returns the absolute, cleaned form of an output path, so that the
-// same file written as a relative and as an absolute path is one file.
+// same file written as a relative and as an absolute path is one file. The
+// directories of the path that exist already are resolved through symbolic
+// links, so that two spellings reaching one directory are one file as well.
 func absClean(p *pathlib.Path) *pathlib.Path {
 	if !p.IsAbsolute() {
 		if cwd, err := os.Getwd(); err == nil {
 			p = pathlib.NewPath(cwd).JoinPath(p)
 		}
 	}
-	return p.Clean()
+	p = p.Clean()
+	rest := []string{p.Name()}
+	for dir := p.Parent(); ; dir = dir.Parent() {
+		if resolved, err := filepath.EvalSymlinks(dir.String()); err == nil {
+			return pathlib.NewPath(resolved).Join(rest...)
+		}
+		if dir.String() == dir.Parent().String() {
+			return p
+		}
+		rest = append([]string{dir.Name()}, rest...)
+	}
 }
 
 func (i *InterfaceCollection) Append(ctx context.Context, iface *config.Interface) error {
